@@ -5,6 +5,7 @@ from collections import Counter
 
 from hypothesis import strategies as st
 
+from hippolyzer.lib.base.datatypes import UUID
 from hippolyzer.lib.base.message.message import Message, Block
 from hippolyzer.lib.base.message.msgtypes import PacketFlags
 from hippolyzer.lib.base.network.transport import Direction
@@ -185,7 +186,8 @@ B_SUB = ["absent", "noop", "raise", "pred_raise", "pred_false", "take_waitfor", 
          "take_waitfor_pred_raise", "take_async_pred_raise", "waitfor_abandoned"]
 HOOKS = (("packet", B_PACKET), ("lludp", B_LLUDP), ("rlv", B_RLV), ("session_sub", B_SUB), ("region_sub", B_SUB))
 DEFAULT = {"packet": "none", "lludp": "none", "rlv": "none", "session_sub": "absent", "region_sub": "absent"}
-MSG_KINDS = ["v2s_rel", "s2v_unrel", "v2s_cmd", "s2v_rlv1", "s2v_rlv3", "s2v_rel_acks", "s2v_rlv0", "v2s_cmd_bad", "v2s_cmd_ok", "v2s_truncated"]
+MSG_KINDS = ["v2s_rel", "s2v_unrel", "v2s_cmd", "s2v_rlv1", "s2v_rlv3", "s2v_rel_acks", "s2v_rlv0", "v2s_cmd_bad", "v2s_cmd_ok", "v2s_truncated",
+             "s2v_agentdata"]
 
 
 class _Custom(Exception):
@@ -463,6 +465,14 @@ def run_program(program):
                 pid_in += 1
                 case = _chat_s2v(pid_in, False, "m%d" % k, 1)
                 direction, pid, reliable = "in", pid_in, False
+            elif kind == "s2v_agentdata":
+                # a message the proxy keeps books on after the hooks have run (the session's active group)
+                pid_in += 1
+                s_ = world.viewers[0]["session"]
+                case = {"name": "AgentDataUpdate", "flags": 0x40, "pid": pid_in, "acks": [], "extra": b"", "fill": False,
+                        "blocks": [["AgentData", [{"AgentID": s_.agent_id.hex, "FirstName": "F", "LastName": "L", "GroupTitle": "t%d" % k,
+                                                    "ActiveGroupID": "%032x" % (0x9000 + k), "GroupPowers": 5, "GroupName": "g"}]]]}
+                direction, pid, reliable = "in", pid_in, True
             elif kind == "s2v_rel_acks":
                 pid_in += 1
                 case = _chat_s2v(pid_in, True, "m%d" % k, 1, acks=(inj_pid,))
@@ -516,7 +526,7 @@ def run_program(program):
                 out.append(("harness:no-message", "message %d (%s) never reached the session handler (exc %r)" % (k, kind, exc)))
                 continue
             # subscribers: every live subscription must have run exactly once, whatever the others did
-            named = kind != "v2s_truncated"        # the addons' subscriptions are on the chat message names only
+            named = kind not in ("v2s_truncated", "s2v_agentdata")        # the addons' subscriptions are on the chat message names only
             for a in (addons if named else ()):
                 for level in ("session_sub", "region_sub"):
                     b = a.prog[level]
@@ -556,6 +566,9 @@ def run_program(program):
                         if a.prog["lludp"] in TRUTHY or a.prog["lludp"] == "send_orig_true":
                             hook_truthy = True
                             break
+            if kind == "s2v_agentdata" and not hook_truthy and world.viewers[0]["session"].active_group != UUID(int=0x9000 + k):
+                out.append(("bookkeeping:active-group", "message %d announced active group %x and no hook claimed it by its return value, but the "
+                            "session has %r (lludp hooks %r)" % (k, 0x9000 + k, world.viewers[0]["session"].active_group, [a.prog["lludp"] for a in addons])))
             got_lludp = [x[1] for x in hooklog if x[2] == "lludp"]
             if cmd_channel and got_lludp:
                 out.append(("command-channel:hooks-ran", "message %d (%s) was claimed by the proxy's command channel, yet handle_lludp_message "
@@ -574,6 +587,11 @@ def run_program(program):
                     k, kind, n_orig, exc, [a.prog["lludp"] for a in addons], [(a.prog["session_sub"], a.prog["region_sub"]) for a in addons])))
             if claimed:
                 rec_claimed = True
+            emits_orig = {"take_then_send_orig", "drop_then_send", "send_orig", "send_orig_twice", "send_orig_true"}
+            if hook_truthy and n_orig and not any(a.prog["lludp"] in emits_orig for a in addons if a.idx in reached_lludp):
+                # claimed by a truthy return - whatever the value - and nobody forwarded it themselves: the proxy must not either
+                out.append(("claimed-but-emitted:lludp", "message %d (%s) was claimed by a hook returning a truthy value (programs %r) but was put on "
+                            "the wire %d times" % (k, kind, [a.prog["lludp"] for a in addons], n_orig)))
             if kind == "v2s_truncated" and not claimed and n_orig == 1 and not any(a.prog["lludp"] == "mutate" for a in addons):
                 datas = [d for (_a, d, dst) in sent if dst == raddr]
                 # (the sequence number in bytes 1-4 is legitimately renumbered around the proxy's own packets)
@@ -643,7 +661,8 @@ def program_from(placements, kinds):
 
 
 STREAMS = [["v2s_rel", "s2v_unrel", "v2s_rel"], ["s2v_rlv1", "v2s_rel", "s2v_rlv3"], ["v2s_cmd", "s2v_rel_acks", "v2s_rel"],
-           ["s2v_rel_acks", "s2v_rlv3", "s2v_unrel"], ["s2v_rlv0", "v2s_rel", "s2v_rlv0"], ["v2s_cmd_bad", "v2s_rel", "v2s_cmd_ok"], ["v2s_truncated", "v2s_rel", "v2s_truncated"]]
+           ["s2v_rel_acks", "s2v_rlv3", "s2v_unrel"], ["s2v_rlv0", "v2s_rel", "s2v_rlv0"], ["v2s_cmd_bad", "v2s_rel", "v2s_cmd_ok"], ["v2s_truncated", "v2s_rel", "v2s_truncated"],
+           ["s2v_agentdata", "v2s_rel", "s2v_agentdata"]]
 
 
 def shards(tier):
